@@ -1,2 +1,3 @@
 -- every line-protocol driver (what Main.lean needs)
 import SmVerif.Model.DriverMh
+import SmVerif.Model.DriverOwn
